@@ -306,7 +306,13 @@ def swapped_arguments(prog, mi):
                 if not owner or owner[1] is None:
                     continue
                 callee = owner[1]
-                ps = [a.arg for a in callee.args.posonlyargs + callee.args.args][1:]
+                ps = [a.arg for a in callee.args.posonlyargs + callee.args.args]
+                if any(dotted(d) == 'staticmethod' for d in callee.decorator_list):
+                    pass                                    # no receiver parameter
+                elif ps and ps[0] in ('self', 'cls'):
+                    ps = ps[1:]
+                else:
+                    continue
                 bound = dict(zip(ps, call.args))
                 for k in call.keywords:
                     if k.arg:
@@ -568,11 +574,37 @@ def falsy_numeric_default(fn):
     return out
 
 
+_SIDE = {}
+
+
+def _side_load(modname):
+    """a module of the package that the check did not load, parsed on its own (only its top-level names are used)"""
+    if modname in _SIDE:
+        return _SIDE[modname]
+    import os
+    from ..report import REPO
+    from ..program import Program
+    m = None
+    if modname.startswith('cherab'):
+        base = modname.replace('.', '/')
+        for rel in (base + '/__init__.py', base + '.py', base + '.pyx'):
+            if os.path.exists(os.path.join(REPO, rel)):
+                try:
+                    p = Program()
+                    p.load_many([rel])
+                    m = p.modules.get(modname)
+                except Exception:
+                    m = None
+                break
+    _SIDE[modname] = m
+    return m
+
+
 def _star_names(prog, modname, depth):
     """public top-level names of a package-internal module reached by 'from m import *' (None: not loaded / not resolvable)"""
     if prog is None or depth > 4:
         return None
-    m = prog.modules.get(modname)
+    m = prog.modules.get(modname) or _side_load(modname)
     if m is None:
         return None
     out = set(dict.keys(m.functions)) | set(m.classes) | set(m.assigns) | set(m.imports)
